@@ -776,10 +776,8 @@ class Gen:
             iface = "r" if k < 0.45 else ("q" if k < 0.8 else "g")
         else:
             iface = "r" if k < 0.35 else ("q" if k < 0.8 else "g")
-        if iface != "r" and mode == 2:
+        if iface != "r" and o.Q is not None and mode != 1:
             m, n = qm, qn
-        if iface != "r" and mode == 1:
-            pass
         real = iface == "r"
         t = lambda x: self.tok(x, real)
         pair = self.real_pair if real else self.rat_pair
